@@ -22,7 +22,7 @@ SPEC = dict(
          'signals are sent on log markers only. ctlrun: the real DefaultFanController.Run in-process (real HwMonFan on temp files, real bbolt persistence decorated '
          'to fail single operations, stub curve that counts evaluations and injects the event at its 3rd evaluation): second load fails / is empty after a successful '
          'initialisation, hwmon fan without RPM input, control error with the device gone / present, cancellation while ticking, placeholder data not storable, failing '
-         'initialisation, stalled at max PWM (at once / after raising the minimum), cancellation while a control cycle is in flight (curve evaluation blocked in cycle 1..3, released after the other actors returned) or with a tick pending, with and without RPM input (the device is judged again 250 ms after Run returned and the blocked cycle was released), fatal control error / stall followed by 1.3 s (real time) of life before the shutdown (the hand-back must persist); x original mode {2,1,0} x pwm_enable present/absent.',
+         'initialisation, stalled at max PWM (at once / after raising the minimum), cancellation while a control cycle is in flight (curve evaluation blocked in cycle 1..3, released after the other actors returned) or with a tick pending, with and without RPM input (the device is judged again 250 ms after Run returned and the blocked cycle was released), cancellation after the database directory has disappeared (replaced by a plain file), cancellation / control error while a SECOND real controller (parallel initialisation disabled) is held inside its initialisation sequence (its RPM never settles), fatal control error / stall followed by 1.3 s (real time) of life before the shutdown (the hand-back must persist); x original mode {2,1,0} x pwm_enable present/absent.',
     assumptions=[
         'oracle (oklog/run): the first actor to return triggers every interrupt function once; Group.Run returns only after all actors returned',
         'oracle (runtime): os.Exit follows g.Run; a signal is delivered into the one-element buffer of the notify channel or dropped; a send on a closed channel panics the process',
